@@ -279,6 +279,31 @@ theorem c06_permit_survives_without_idle_voters (cfg : Cfg) (voters : List Voter
   rw [← hc, collect_length] at this
   rw [← hc]; exact this
 
+/-- "Reported as reached" includes the callbacks: the result of a vote is handed to `on_quorum_reached` exactly when
+    the decision is PERMIT (to `on_quorum_failed` otherwise) - hence, for a non-negative threshold, never for a ballot
+    without a permit vote. -/
+theorem c06_reached_callback_only_on_permit (cfg : Cfg) (voters : List Voter) :
+    (callbackFor (runVote cfg voters) = .onReached ↔ (runVote cfg voters).decision = .permit) ∧
+    (callbackFor (runVote cfg voters) = .onFailed ↔ (runVote cfg voters).decision ≠ .permit) ∧
+    (NonNegThreshold cfg → callbackFor (runVote cfg voters) = .onReached →
+      ∃ v ∈ voters, (toVote v).kind = .permit) := by
+  have hiff := c06_permit_iff_reached cfg voters
+  have h1 : callbackFor (runVote cfg voters) = .onReached ↔ (runVote cfg voters).decision = .permit := by
+    rw [hiff]; unfold callbackFor
+    cases (runVote cfg voters).reached <;> simp
+  have h2 : callbackFor (runVote cfg voters) = .onFailed ↔ (runVote cfg voters).decision ≠ .permit := by
+    rw [Ne, hiff]; unfold callbackFor
+    cases (runVote cfg voters).reached <;> simp
+  refine ⟨h1, h2, fun ht hcb => ?_⟩
+  by_contra hnone
+  have hno : ∀ v ∈ voters, (toVote v).kind ≠ .permit := fun v hv hk => hnone ⟨v, hv, hk⟩
+  exact (c06_no_permit_without_permit_vote cfg voters ht hno).2 (h1.mp hcb)
+
+/-- both callbacks occur: two permits against one block is handed to `on_quorum_reached`, a lone block to
+    `on_quorum_failed` -/
+example : callbackFor (runVote ⟨.majority, none, 1⟩ [voterOf .permit 1 1, voterOf .permit 1 1, voterOf .block 1 1]) = .onReached ∧
+    callbackFor (runVote ⟨.majority, none, 1⟩ [voterOf .block 1 1]) = .onFailed := by decide +kernel
+
 /-! ### Totality and the extracted constants -/
 
 /-- `run_vote` returns a result for every non-empty colony (the only raise of the model is the count strategy's
